@@ -309,6 +309,13 @@ def check_formulation(ctx: Ctx, F: IlpFacts, rules: Dict[str, str], lower: float
         if r is None:
             return
         ctx.check(bool(cond), r, f, node, good, bad_detail=bad, key=key or name)
+    # a program posed over a *selection* of the candidates (objective disorders[ids] . x) is a decomposition into sub-problems: a different
+    # design, whose correctness rests on how the sub-problems partition the candidates and the units - not on the slots checked below
+    if any(p.objective and p.objective != "disorders@x" and f"{F.disorders}[" in p.objective for p in F.problems):
+        ctx.undecided(next(iter(rules.values())), f, F.problems[0].node,
+                      "the program is posed over a selection of the candidates (decomposition into sub-problems): outside the recognised "
+                      "formulation, not a verdict", key="formulation-design")
+        return
     if "problems" in rules:
         if not F.problems:
             ctx.undecided(rules["problems"], f, None, "no cp.Problem(...) found", key="problems")
@@ -424,6 +431,15 @@ def check_decoding(ctx: Ctx, F: IlpFacts, rules: Dict[str, str], result_class: s
                 used_c = norm(a.value)[len(F.cands) + 1:-1]
             if a.value is not None and norm(a.value) in {f"{F.disorders}[{i}]" for i in aliases}:
                 dis = norm(tg)
+    if chosen is None or dis is None:
+        # which index expressions select from the candidates / the disorders at all?
+        sel_c = {norm(a.value.slice) for a in walk_no_nested(f.node) if isinstance(a, ast.Assign) and isinstance(a.value, ast.Subscript) and norm(a.value.value) == F.cands}
+        sel_d = {norm(a.value.slice) for a in walk_no_nested(f.node) if isinstance(a, ast.Assign) and isinstance(a.value, ast.Subscript) and norm(a.value.value) == F.disorders}
+        if not (sel_c and sel_d and not (sel_c & sel_d)):
+            # not "two different id vectors": the ids are derived from the thresholded vector in a way this recogniser does not follow
+            ctx.undecided(rules.get("same-ids") or next(iter(rules.values())), f, s,
+                          "the selected candidates / disorders are not taken with the thresholded id vector itself (ids post-processed): not a verdict", key="same-ids")
+            return
     chk("same-ids", chosen is not None and dis is not None, s, "the same id vector selects the candidates and their disorders",
         "selected candidates and selected disorders are not indexed by the same ids")
     if chosen is None or dis is None:
